@@ -93,6 +93,8 @@ class Ctx:
         self.skipped = 0
         self.known = [r for r in load_known_findings(prop_id) if r.get("status") == "known"]
         self.extra = {}
+        self.recent = []         # the last cases run in this process (shrinking checks only)
+        self.first_found = None
 
     def expired(self):
         if time.time() > self.deadline:
@@ -125,6 +127,8 @@ class Ctx:
                 return True
         v = {"property": self.prop_id, "kind": kind, "signature": sig, "detail": detail, "case": case}
         if self.shrink_mode:
+            if self.first_found is None:
+                self.first_found = (v, list(self.recent[:-1]))
             raise Found(v)
         key = jdump(sig)
         b = self.violations.setdefault(key, {"signature": sig, "count": 0, "cases": []})
@@ -154,14 +158,33 @@ def run_given(ctx, strategy, body, max_examples, shrink=False):
     def test(case):
         if ctx.expired():
             return
+        if shrink:
+            ctx.recent.append(case)
+            del ctx.recent[:-40]
         body(case)
 
+    from hypothesis.errors import FlakyFailure
     try:
         test()
     except Found as f:
         ctx.shrink_mode = False
         v = f.violation
         ctx.violation(v["kind"], v["case"], v["detail"], v["signature"])
+    except FlakyFailure:
+        # the oracle failed on an input and passed when Hypothesis ran the very same input again: the code under test
+        # remembers something between calls. The first failure is a real observation and is reported as such, with
+        # the cases that ran before it in this process so that the replay can recreate the state.
+        if ctx.first_found is None:
+            raise
+        ctx.shrink_mode = False
+        v, prelude = ctx.first_found
+        b = ctx.violation(v["kind"], v["case"], v["detail"] + " [the same input gave another outcome when it was "
+                          "run again in the same process: the result depends on what was computed before]",
+                          v["signature"])
+        for bucket in ctx.violations.values():
+            for c in bucket["cases"]:
+                if c["case"] is v["case"]:
+                    c["prelude"] = prelude
     finally:
         ctx.shrink_mode = False
 
@@ -320,6 +343,12 @@ def main_check(mod, tier, replay_path=None):
     if replay_path is not None:
         with open(replay_path) as f:
             rec = json.load(f)
+        for pc in rec.get("prelude", []):
+            # cases that ran in the same process before the failing one (state kept by the code under test)
+            try:
+                mod.replay(pc, ctx_factory())
+            except Exception:
+                pass
         ctx = ctx_factory()
         mod.replay(rec["case"], ctx)
         found = [c for b in ctx.violations.values() for c in b["cases"]]
